@@ -14,7 +14,25 @@ MC_BASE = 100            # remote ids >= 100 are multicast group addresses (Mode
 class _Iface:            # what UDP6EndpointAddress keeps a weak reference to
     def _local_port(self): return 5683
 
-def _host(r): return ("ff02::%x" % (r - MC_BASE + 0xfd)) if r >= MC_BASE else ("fe80::%x" % (r + 1))
+# Endpoint ids (= Model.C02 remotes) -> REAL udp6 socket addresses. Ids 0..3: four hosts on port 5683 (id 2 is v4-mapped); ids 8..11: the SAME
+# hosts on port 5684 -- different endpoints (udp6.py:149-153 compares sockaddr[:-1] = host, port, flowinfo); ids >= 100: multicast groups.
+# An event may name an endpoint as id + ALIAS: the same host and port with scope id 7 -- the SAME endpoint for the library (scope id is not
+# compared nor hashed), so the model sees the plain id.
+ALIAS = 1000
+SIB = 8
+_HOSTS = ["fe80::1", "fe80::2", "::ffff:10.0.0.3", "fe80::4"]
+def norm_event(e):
+    """the event with its endpoint named by the plain endpoint id (what the model and the oracle reason about)"""
+    i = {"req": 2, "recv": 1, "err": 1, "refuse": 1}.get(e[0])
+    if i is None: return e
+    e = list(e); e[i] = ep(e[i]); return e
+def ep(e): return e - ALIAS if e >= ALIAS else e                 # endpoint id the model / the oracle reason about
+def _sockaddr(e):
+    r = ep(e); scope = 7 if e >= ALIAS else 0
+    if r >= MC_BASE: return ("ff02::%x" % (r - MC_BASE + 0xfd), 5683, 0, scope)
+    if r >= SIB: return (_HOSTS[r - SIB], 5684, 0, scope)
+    return (_HOSTS[r], 5683, 0, scope)
+_BY_HOSTPORT = {_sockaddr(r)[:2]: r for r in list(range(0, 4)) + list(range(SIB, SIB + 4)) + list(range(MC_BASE, MC_BASE + 4))}
 
 _RANK = {"send": 0, "token": 1, "result": 2, "exception": 2, "cancelled": 2, "notify": 3, "obserr": 3, "raised": 4, "loopexc": 5, "crash": 6}
 def canon(items):
@@ -59,14 +77,14 @@ class Driver:
         self.reqs = {}; self.out = []; self.nexc = 0; self.refusing = set()
     # -- helpers
     def addr(self, r, incoming=False, mcl=False):
-        return self.A((_host(r), 5683, 0, 0), self.iface, pktinfo=(self.pk_mc if mcl else self.pk_uni) if incoming else None)
+        return self.A(_sockaddr(r), self.iface, pktinfo=(self.pk_mc if mcl else self.pk_uni) if incoming else None)
     def rid_of(self, remote):
-        h = remote.sockaddr[0]
-        for r in list(range(0, 8)) + list(range(MC_BASE, MC_BASE + 4)):
-            if _host(r) == h: return r
-        return -1
+        """full endpoint (host AND port) of an address object the library hands out; the scope id is not part of the endpoint"""
+        return _BY_HOSTPORT.get((remote.sockaddr[0], remote.sockaddr[1]), -1)
     def errname(self, e):
-        return type(e).__name__ if not isinstance(e, type) else e.__name__
+        """class name; classes from outside the aiocoap package carry their module (builtins.TimeoutError is not aiocoap.error.TimeoutError)"""
+        cls = e if isinstance(e, type) else type(e)
+        return cls.__name__ if (cls.__module__ or "").startswith("aiocoap") else "%s.%s" % (cls.__module__, cls.__name__)
     def guarded(self, f, *a):
         try:
             with self.loop.enter(): f(*a)
@@ -162,7 +180,7 @@ class Driver:
             elif k == "cancel": self.ev_cancel(ev[1])
             elif k == "obscancel": self.ev_obscancel(ev[1])
             elif k == "shutdown": self.ev_shutdown()
-            elif k == "refuse": (self.refusing.add if ev[2] else self.refusing.discard)(ev[1])
+            elif k == "refuse": (self.refusing.add if ev[2] else self.refusing.discard)(ep(ev[1]))
             else: raise ValueError("unknown event %r" % (ev,))
             trace.append(self.flush())
         og = self.tman.outgoing_requests
@@ -223,7 +241,7 @@ class Gen:
             if not known: return self.stray()
             info = rng.choice(known)
         if variant is None:
-            variant = rng.choices(["genuine", "wrong_remote", "wrong_token", "dup"], [60, 15, 15, 10])[0]
+            variant = rng.choices(["genuine", "wrong_remote", "wrong_token", "dup", "bad_kind"], [55, 15, 15, 8, 7])[0]
         if variant == "dup" and self.history:
             e = list(rng.choice(self.history)); self.ev(e); return
         r = info["r"] if info["r"] < MC_BASE else rng.choice([0, 1, 2])
@@ -243,6 +261,9 @@ class Gen:
         else:
             observe = None if rng.random() < 0.9 else rng.randrange(100)
         code = rng.choice([69, 69, 69, 68, 132, 160, 65])
+        if variant == "bad_kind":      # right token, right endpoint, but not a response: a code outside 2.xx-5.xx, or a Reset-typed "response"
+            if rng.random() < 0.5: code = rng.choice([192, 200, 224, 225, 63, 32])
+            else: mtype, mid = RST, (info["mid"] if info["mid"] is not None and rng.random() < 0.5 else rng.randrange(65536))
         mcl = rng.random() < 0.08
         e = ["recv", r, mcl, mtype, code, mid, tok, observe, self.new_rid()]
         if rng.random() < 0.25: self.delayed.append(e)          # delayed / reordered datagram
@@ -285,6 +306,26 @@ class Gen:
             self.ev(["obscancel", rng.choice(obs) if obs else rng.randrange(len(self.reqs))])
         else:
             self.ev(["shutdown"]); self.shut = True
+
+def decorate(rng, events):
+    """Endpoint variation (udp6 address equality is an anchor): with probability 1/2 one or two of the abstract remotes 0..3 become the
+    port-5684 sibling of ANOTHER remote in use (same IP, other port = another endpoint: forgeries, errors, refusals and Resets must not leak
+    between them), and single datagrams / error reports / requests name their endpoint with another scope id (= the same endpoint)."""
+    m = {}
+    if rng.random() < 0.5:
+        a, b = rng.sample([0, 1, 2, 3], 2); m[b] = SIB + a
+        if rng.random() < 0.4:
+            rest = [x for x in [0, 1, 2, 3] if x not in (a, b)]; c = rng.choice(rest); d = rng.choice([x for x in [0, 1, 2, 3] if x not in (b, c)])
+            if SIB + d not in m.values(): m[c] = SIB + d
+    pos = {"req": 2, "recv": 1, "err": 1, "refuse": 1}
+    out = []
+    for e in events:
+        e = list(e); i = pos.get(e[0])
+        if i is not None and e[i] < MC_BASE:
+            e[i] = m.get(e[i], e[i])
+            if e[0] != "refuse" and rng.random() < 0.12: e[i] += ALIAS
+        out.append(e)
+    return out
 
 def gen_script(rng, kind):
     token0 = rng.choice([rng.randrange(65536), rng.randrange(65536), 0, 255, 65535, 2 ** 64 - 2, 2 ** 64 - 3, 2 ** 56 - 1])
@@ -333,7 +374,7 @@ def gen_script(rng, kind):
             g.response(victim, rng.choice(["wrong_remote", "wrong_token", "wrong_token", "genuine", "dup"]))
         g.response(victim, "genuine"); g.response(victim, "genuine")
         while g.delayed: g.release_delayed()
-    return {"token0": token0, "mid0": mid0, "t0": t0, "events": g.events}
+    return {"token0": token0, "mid0": mid0, "t0": t0, "events": decorate(rng, g.events)}
 
 def gen_hunt(rng):
     """oracle-only 'collision hunt': one request stays outstanding (empty-ACKed, answered much later) while 255-300 (or ~520) further
@@ -387,7 +428,9 @@ class C02(fw.Property):
             "outstanding/retired requests as piggy-backed ACK / separate CON / NON / ACK with wrong mid, genuine or forged (right token+wrong remote, mutated/guessed/retired token), duplicated, "
             "delayed and reordered, received on unicast or multicast addresses; empty ACK/RST/ping with right or wrong mid/remote; codes that do not fit; timer firings and time advances; "
             "transport errors per remote (OSError, NetworkError, subclasses); response-future cancellation; observation cancellation; shutdown at any point followed by more traffic; "
-            "token counter near 2^64 and mid counter near 2^16; the transport refusing datagrams to a remote synchronously (send() calls MessageManager.dispatch_error(OSError) from inside, as udp6 does when "
+            "token counter near 2^64 and mid counter near 2^16; endpoints are REAL udp6 addresses incl. a v4-mapped host, in half of the scripts one or two remotes are the port-5684 siblings of another "
+            "remote's IP (different endpoint: forgeries / errors / refusals / Resets must not leak), 12% of the datagrams, error reports and requests name their endpoint with another scope id (same endpoint); "
+            "responses with the right token from the right endpoint but a code outside 2.xx-5.xx or typed RST; the transport refusing datagrams to a remote synchronously (send() calls MessageManager.dispatch_error(OSError) from inside, as udp6 does when "
             "sendmsg fails), switched on/off at any point, with NON / acknowledged CON / un-acked CON + backlog / observations outstanding to that remote, refused ACK/RST replies, refused retransmissions "
             "and refused backlog releases. Streams: random, nomc (unicast only), timeout (all timers until silence), shutdown, forge, refuse; plus the oracle-only stream collision_hunt (1 in 50: "
             "one request outstanding while 255-560 further requests to the same remote are issued and answered, token counter started at 0 / 1 / just below 2^64, so that a non-injective token rendering collides). "
@@ -398,6 +441,8 @@ class C02(fw.Property):
     assumptions = ["each external event is followed by running the event loop until the ready queue is empty (event + its consequences = one model step)",
                    "the application cancels an observation only after the first response arrived; request ids are fresh",
                    "no datagram is dispatched after Context.shutdown (the transport is closed)",
+                   "Context.request() and its send() task run as one step (no cancel / shutdown between creating the Request and TokenManager.request); every request is routable "
+                   "(recognize_remote is always true: the NoRequestInterface / MissingRemoteError path of Context.request is not exercised); send() never raises other than ConToMulticast",
                    "a refusing transport is the fake interface's send() calling dispatch_error(OSError(ENETUNREACH), remote) before returning, nothing on the wire (udp6.py:504/694); only unicast remotes refuse",
                    "time.time() frozen for the observation freshness rule; random.uniform returns the script's ACK timeout"]
 
@@ -430,15 +475,15 @@ class C02(fw.Property):
         evs = []
         for e in inp["events"]:
             k = e[0]
-            if k == "req": evs.append("Request %s %s %s %s" % (gz(e[1]), gz(e[2]), gopt(e[3], gz), gbool(e[4])))
-            elif k == "recv": evs.append("Recv %s %s %s" % (gz(e[1]), gbool(e[2]), wire(*e[3:])))
+            if k == "req": evs.append("Request %s %s %s %s" % (gz(e[1]), gz(ep(e[2])), gopt(e[3], gz), gbool(e[4])))
+            elif k == "recv": evs.append("Recv %s %s %s" % (gz(ep(e[1])), gbool(e[2]), wire(*e[3:])))
             elif k == "fire": evs.append("Fire")
             elif k == "adv": evs.append("Adv %s" % gz(e[1]))
-            elif k == "err": evs.append("Err %s %s" % (gz(e[1]), {"os": "EOs", "net": "(ENet NetworkError)", "cre": "(ENet ConRetransmitsExceeded)", "msg": "(ENet MessageError)"}[e[2]]))
+            elif k == "err": evs.append("Err %s %s" % (gz(ep(e[1])), {"os": "EOs", "net": "(ENet NetworkError)", "cre": "(ENet ConRetransmitsExceeded)", "msg": "(ENet MessageError)"}[e[2]]))
             elif k == "cancel": evs.append("Cancel %s" % gz(e[1]))
             elif k == "obscancel": evs.append("ObsCancel %s" % gz(e[1]))
             elif k == "shutdown": evs.append("Shutdown")
-            elif k == "refuse": evs.append("Refuse %s %s" % (gz(e[1]), gbool(e[2])))
+            elif k == "refuse": evs.append("Refuse %s %s" % (gz(ep(e[1])), gbool(e[2])))
             else: raise ValueError(k)
         return "let r := run (init %s %s %s) %s in (snd r, snapshot (fst r))" % (gz(inp["token0"]), gz(inp["mid0"]), gz(inp["t0"]), glist(evs))
     def decode(self, stream, inp, p):
@@ -478,7 +523,8 @@ class C02(fw.Property):
         refusing = set()      # remotes for which the transport currently refuses datagrams synchronously
         def outstanding(): return [x for x in R.values() if x["live"]]
         def matches(x, tok, r): return x["live"] and x["tok"] == tok and (x["mc"] or x["r"] == r)
-        for ev, outs in zip(inp["events"], res["trace"]):
+        events = [norm_event(e) for e in inp["events"]]      # endpoints by plain id: another scope id is the same endpoint
+        for ev, outs in zip(events, res["trace"]):
             k = ev[0]
             sends = [o for o in outs if o[0] == "send"]
             escaped = [o[1] for o in outs if o[0] in ("raised", "loopexc")]
@@ -596,6 +642,17 @@ class C02(fw.Property):
                         return ("C02:shutdown-not-delivered:%s" % (escaped[0] if escaped else "silent"), "request %d outstanding at shutdown got %r" % (x["q"], c))
                     x["live"] = False
                 shut = True
+            # -- failures are attributed per FULL endpoint (host and port): what happens at / is reported for one endpoint never fails a
+            #    request to another one (requests to multicast groups accept answers from anywhere, they are exempt)
+            failed = [R[o[1]] for o in outs if o[0] in ("exception", "obserr") and o[1] in R and not R[o[1]]["mc"]]
+            if failed and k != "shutdown":
+                if k in ("req", "recv", "err"):
+                    here = ev[2] if k == "req" else ev[1]
+                    for x in failed:
+                        if x["r"] != here: return ("C02:failure-leaked-to-other-endpoint", "%r concerns endpoint %d but failed request %d to endpoint %d: %r" % (ev, here, x["q"], x["r"], outs))
+                elif k == "fire":
+                    if len(set(x["r"] for x in failed)) > 1: return ("C02:failure-leaked-to-other-endpoint", "one timer failed requests to several endpoints: %r" % (outs,))
+                else: return ("C02:spurious-failure", "%r failed requests: %r" % (ev, outs))
             # completions retire the request
             for o in completions:
                 x = R.get(o[1])
